@@ -249,3 +249,67 @@ def load_known_findings():
         d['text'] = rest.strip()
         res[kind].append(d)
     return res
+
+
+# ---------------------------------------------------------------------------------------------
+# constants harvested from the anchored source (a fuzzer's dictionary)
+#
+# Numeric literals that occur in the property's anchored files now but did not on the pinned tree
+# (harness/const_baseline.json) are offered to the generators as candidate quantities, prices, amounts, weights:
+# a branch that fires only at a magic value is then reached.  On the unchanged tree the list is empty and the
+# generators behave exactly as before.
+
+HARVEST = []
+
+
+def _file_constants(path):
+    import ast
+    out = set()
+    try:
+        tree = ast.parse(open(path).read())
+    except (OSError, SyntaxError):
+        return out
+    for n in ast.walk(tree):
+        if isinstance(n, ast.Constant) and isinstance(n.value, (int, float)) and not isinstance(n.value, bool):
+            if n.value == n.value and abs(n.value) < 1e15:
+                out.add(n.value)
+    return out
+
+
+def anchor_files(prop):
+    for l in open(os.path.join(VERIF, 'properties.jsonl')):
+        p = json.loads(l)
+        if p['id'] == prop:
+            return list(p['anchors']['files'])
+    return []
+
+
+def harvest(prop, repo='/repo'):
+    """sets and returns HARVEST for this property"""
+    global HARVEST
+    base = json.load(open(os.path.join(VERIF, 'harness', 'const_baseline.json')))
+    known = set(base.get(prop, []))
+    found = set()
+    for f in anchor_files(prop):
+        found |= _file_constants(os.path.join(repo, f))
+    new = sorted((c for c in found if c not in known and -c not in known), key=lambda c: (abs(c), c))
+    HARVEST = new[:40]
+    return HARVEST
+
+
+def hv(rng, default, kind='any', p=0.12):
+    """`default`, or with probability p a harvested constant (or a neighbour of one) of the wanted kind"""
+    if not HARVEST or rng.random() >= p:
+        return default
+    c = rng.choice(HARVEST)
+    if kind == 'int':
+        c = int(c) if float(c).is_integer() else int(round(c))
+        c = c + rng.choice([0, 0, 0, 1, -1])
+        return c * rng.choice([1, 1, -1]) if c != 0 else default
+    if kind == 'posint':
+        c = abs(int(c) if float(c).is_integer() else int(round(c))) + rng.choice([0, 0, 0, 1, -1])
+        return c if c > 0 else default
+    if kind == 'pos':
+        c = abs(float(c)) * rng.choice([1.0, 1.0, 1.0, 0.5, 2.0]) + rng.choice([0.0, 0.0, 0.01, -0.01])
+        return c if c > 0 else default
+    return float(c) * rng.choice([1.0, 1.0, -1.0])
